@@ -31,6 +31,10 @@ def run(ck: Check, repo: Repo) -> None:
     _forward(ck, repo)
     _reeval(ck, repo)
     _mask(ck, repo)
+    ck.rule("C16.8", "IPPO: the masks of a shared-policy group reach the distribution row-aligned with its logits (collected per agent, combined agent-major): "
+                     "otherwise a row is masked with another (agent, environment) pair's mask and masked actions get non-zero probability")
+    from .c14 import _ippo_masks
+    _ippo_masks(ck, repo, "C16.8")
 
 
 def _handlers(ck: Check, repo: Repo) -> None:
@@ -245,7 +249,46 @@ def _forward(ck: Check, repo: Repo) -> None:
           "EvolvableDistribution.log_prob delegates to the current distribution and refuses to run before a forward pass", construct="EvolvableDistribution.log_prob")
 
 
+def _action_axis_kept(ck: Check, repo: Repo) -> None:
+    """The stored actions handed to the log-probability evaluation keep their action axis: a dimension-less squeeze()
+    (which also removes the axis of one-dimensional Box actions) is undone before the evaluation."""
+    sites = [("agilerl.algorithms.ppo", "PPO.learn", "self.evaluate_actions", "actions"), ("agilerl.algorithms.ippo", "IPPO._learn_individual", "actor.action_log_prob", None)]
+    n = 0
+    for modname, q, callee, kw in sites:
+        fn = repo.fn(modname, q)
+        cfg = CFG(fn.node)
+        for c in [c for c in calls_in(fn.node) if call_name(c) == callee]:
+            arg = get_kw(c, kw) if kw and get_kw(c, kw) is not None else (c.args[-1] if c.args else None)
+            if not isinstance(arg, ast.Name):
+                continue
+            node = cfg.node_of(c)
+            if node is None:
+                continue
+            n += 1
+            defs = cfg.defs_reaching(node, arg.id)
+            vals = [(d, cfg.value_of_def(d, arg.id)) for d in defs]
+
+            def dimless_squeeze(v):
+                return isinstance(v, ast.Call) and last_attr(v) == "squeeze" and not v.args and not v.keywords
+
+            def readds_axis(d, v):
+                if not (isinstance(v, ast.Call) and last_attr(v) in ("unsqueeze", "reshape", "view") and dotted(v.func.value) == arg.id):
+                    return False
+                gs = " ".join(ast.unparse(g) for g, pol, _ in cfg.guards_at(d) if pol)
+                return "spaces.Box" in gs and ".shape == (1,)" in gs.replace("(\n", "(")
+            squeezed = any(dimless_squeeze(v) for _, v in vals)
+            # a re-adding definition reaches the call only if it lies between the squeeze and the call
+            restored = any(readds_axis(d, v) for d, v in vals)
+            ck.ob("C16.6", fn, c, (not squeezed) or restored,
+                  f"{q}: stored actions are re-evaluated with their action axis (a dimension-less squeeze() is undone for one-dimensional Box actions before the log-probability is taken)",
+                  detail=f"`{arg.id}` reaches `{short(c, 50)}` as `{arg.id}.squeeze()` without the Box / shape == (1,) guarded unsqueeze in between: for Box(1,) actions of shape "
+                         "(B,) Normal.log_prob broadcasts against the (B, 1) mean to (B, B) and the sum over components adds B unrelated terms",
+                  construct=f"{q}: action axis at {short(c, 50)}")
+    ck.floor("C16.6", n, 2, "log-probability re-evaluations of stored actions in the learn paths")
+
+
 def _reeval(ck: Check, repo: Repo) -> None:
+    _action_axis_kept(ck, repo)
     ev = repo.fn("agilerl.algorithms.ppo", "PPO.evaluate_actions")
     cfg = CFG(ev.node)
     fw = [cfg.node_of(c) for c in calls_in(ev.node) if call_name(c) == "self._get_action_and_values"]
@@ -290,6 +333,14 @@ def _mask(ck: Check, repo: Repo) -> None:
         ok = dotted(a[0]) == "mask" and dotted(a[1]) == "logits" and any(c <= -1e8 for c in consts)
         detail = f"where({short(a[0], 20)}, {short(a[1], 20)}, {short(a[2], 60)})"
     ck.ob("C16.7", am, rets[0] if rets else am.node, ok, "allowed logits are kept, masked logits are replaced by a constant <= -1e8", detail=detail)
+    # the condition is the caller's mask itself: no rebinding / in-place change of `mask` or `logits` before the selection
+    rebinds = [x for x in walk_no_nested(am.node) if (isinstance(x, (ast.Assign, ast.AugAssign, ast.AnnAssign)) and any(
+        isinstance(t, ast.Name) and t.id in ("mask", "logits") or (isinstance(t, ast.Subscript) and dotted(t.value) in ("mask", "logits"))
+        for t in (x.targets if isinstance(x, ast.Assign) else [x.target])))
+        or (isinstance(x, ast.Call) and isinstance(x.func, ast.Attribute) and x.func.attr.endswith("_") and not x.func.attr.startswith("_") and dotted(x.func.value) in ("mask", "logits"))]
+    ck.ob("C16.7", am, rebinds[0] if rebinds else am.node, not rebinds, "every entry the caller's mask marks as illegal is masked (the mask is used as given)",
+          detail=f"`{short(rebinds[0], 80)}` changes the mask / logits before the selection: entries marked illegal can keep their logit (for MultiBinary an all-zero row means "
+                 "'no bit may be set' and must stay fully masked)" if rebinds else "", construct="apply_action_mask_discrete: mask used as given")
     ap = repo.fn(DM, "EvolvableDistribution.apply_mask")
     src = ast.unparse(ap.node)
     ck.ob("C16.7", ap, ap.node, has(src, 'torch.as_tensor($mask, dtype=torch.bool, device=self.device).view($logits.shape)'), "the mask is converted to booleans with the logits' shape",
@@ -323,6 +374,10 @@ VARIANTS = [
     ("forward-logprob-of-other", _DF, "        log_prob = self.dist.log_prob(action)\n        entropy = self.dist.entropy()\n        return action, log_prob, entropy", "        log_prob = self.dist.log_prob(self.dist.sample())\n        entropy = self.dist.entropy()\n        return action, log_prob, entropy", "fire", "C16.5"),
     ("forward-dist-cached", _DF, "        # Distribution from logits\n        self.dist = self.get_distribution(logits)\n", "        # Distribution from logits\n        if self.dist is None:\n            self.dist = self.get_distribution(logits)\n", "fire", "C16.5"),
     ("mask-after-dist", _DF, "            logits = self.apply_mask(logits, action_mask)\n", "            self.apply_mask(logits, action_mask)\n", "fire", "C16.7"),
+    ("mask-rows-without-legal-entry-unmasked", _DF, "    return torch.where(mask, logits, torch.full_like(logits, -1e8).to(logits.device))", "    mask = mask | ~mask.any(dim=-1, keepdim=True)\n    return torch.where(mask, logits, torch.full_like(logits, -1e8).to(logits.device))", "fire", "C16.7"),
+    ("ippo-masks-hstack", "agilerl/algorithms/ippo.py", "action_masks[homo_id] = torch.Tensor(action_masks[homo_id])", "action_masks[homo_id] = torch.from_numpy(np.hstack(action_masks[homo_id]))", "fire", "C16.8"),
+    ("ippo-box1-unsqueeze-after-logprob", "agilerl/algorithms/ippo.py", "                        batch_actions = batch_actions.unsqueeze(1)\n\n                    log_prob = actor.action_log_prob(batch_actions)\n", "                        pass\n\n                    log_prob = actor.action_log_prob(batch_actions)\n                    if isinstance(action_space, spaces.Box) and action_space.shape == (1,):\n                        batch_actions = batch_actions.unsqueeze(1)\n", "fire", "C16.6"),
+    ("ppo-box1-axis-not-restored", "agilerl/algorithms/ppo.py", "                        batch_actions = batch_actions.unsqueeze(1)\n\n                    log_prob, entropy, value = self.evaluate_actions(", "                        pass\n\n                    log_prob, entropy, value = self.evaluate_actions(", "fire", "C16.6"),
     ("mask-weak-constant", _DF, "torch.full_like(logits, -1e8)", "torch.full_like(logits, -10.0)", "fire", "C16.7"),
     ("mask-inverted", _DF, "return torch.where(mask, logits, torch.full_like(logits, -1e8).to(logits.device))", "return torch.where(mask, torch.full_like(logits, -1e8).to(logits.device), logits)", "fire", "C16.7"),
     ("ppo-eval-no-forward", _PF, "        _, _, entropy, values = self._get_action_and_values(obs)\n\n        # log_prob of passed actions given the current policy\n        log_prob = self.actor.action_log_prob(actions)",
